@@ -28,13 +28,17 @@ META = {
         "comparisons, linear relational reasoning, constant folding for the five variants, iterator chunk lengths, "
         "preconditions checked at every call site, the select_nth post-condition -- including all 26 sites inside "
         "Generator::update; the documented quartile index assertion and the clean slice panic on a misreporting reader are "
-        "listed as documented; the sums of bounded part distances / kernel accumulators and one debug-only closure assertion "
-        "are listed as NOT decided (never as discharged)."
+        "listed as documented.  Accumulators are discharged too: a counter incremented at most once per cycle of a loop with a "
+        "statically bounded trip count (iterator over arrays / `while i < K`), the per-chunk sums of the scalar body-distance "
+        "kernels (kernel result <= 24 per byte, from the lane table R-02.5 decides, times the chunk count), small pure crate "
+        "functions by exact evaluation over the product of their argument ranges, and the sum in compare_with_config from the "
+        "part maxima (decided by R-02.6 / R-08.1-3 / R-08.6).  The final scalar additions of extracted vector lanes in the x86 "
+        "backends and one debug-only closure assertion are listed as NOT decided (never as discharged)."
     ),
     "trusted_base": ["rustc nightly front end, constant evaluator, target-feature implication lists", "core/std/hex-simd are free of UB", "core::arch intrinsics are sound when their target features are available",
                      "core::slice::select_nth_unstable post-condition (left <= pivot <= right)"],
     "assumptions": ["analysed targets: x86_64, aarch64 (NEON backend), i686, wasm32 (simd128 backend); code behind `unstable` (core::intrinsics::assume, portable SIMD, 32-bit Arm) does not compile with the installed nightly and is not analysed"],
-    "not_decided": ["that sums of part distances / kernel accumulators stay below u32::MAX (follows from the part maxima, body part not decided)",
+    "not_decided": ["overflow checks on the final scalar additions of extracted vector lanes in the x86 body-distance backends (the lane values are bounded by R-02.5's lane analysis, which the interval reasoning does not see through the intrinsics)",
                     "the debug-only q1<=q2<=q3 assertion inside naive::get_quartile (closure capture not traced; same condition discharged at the dispatcher)"],
 }
 TECHNIQUE = "unsafe-operation inventory and layering, invariant discharge by constant folding over finite class domains, taint from foreign trait calls, feature-implication dominance, panic-site idiom discharge"
@@ -418,10 +422,7 @@ def utf8(ctx, F):
 
 NOT_DECIDED = [
     # (function path regex, kind regex, reason) -- recorded, never claimed as discharged
-    (r"FuzzyHashType>::compare_with_config$", r"assert:overflow", "sum of four part distances, each bounded by its MAX_DISTANCE (body part bound not decided statically)"),
-    (r"^compare::dist_body::(pseudo_simd_32|pseudo_simd_64|x86_avx2|x86_sse2|x86_sse4_1)::distance_", r"assert:overflow", "kernel accumulator: sum of per-chunk distances (kernel arithmetic not decided)"),
-    (r"^compare::dist_checksum::distance_3$", r"assert:overflow", "sum <= trip count 3 (loop-carried relation between the two counters)"),
-    (r"^compare::dist_qratios::naive::distance$", r"assert:overflow", "sum of two sub-distances <= 168 (follows from the table maximum, R-08.1; not re-derived here)"),
+    (r"^compare::dist_body::(x86_avx2|x86_sse2|x86_sse4_1)::distance_", r"assert:overflow", "final scalar additions of extracted vector lanes (the lane values are bounded by R-02.5's lane analysis, not re-derived here)"),
     (r"^generate::bucket_aggregation::naive::get_quartile$", r"panic", "debug-only assertion q1<=q2<=q3 behind a closure capture; the same condition is discharged at the dispatcher (select_nth post-condition)"),
 ]
 DOCUMENTED = [
@@ -429,6 +430,20 @@ DOCUMENTED = [
     (r"^generate_easy_std::hash_stream_common$", r"index", "a reader that misreports its length causes a clean slice-index panic (explicitly allowed by the property)"),
 ]
 GENERATED = [r"^generate::_::", r"^<generate::_::", r"^hash::qratios::_::", r"InnerQRatios"]
+
+
+def _part_maxima(F):
+    body = F.impl_consts("hash::body::FuzzyHashBodyData<", "hash::body::FuzzyHashBody")
+    ck = F.impl_consts("hash::checksum::FuzzyHashChecksumData<", "hash::checksum::FuzzyHashChecksum")
+    q = F.impl_consts("hash::qratios::FuzzyHashQRatios").get("hash::qratios::FuzzyHashQRatios", {}).get("MAX_DISTANCE")
+    l = F.impl_consts("length::FuzzyHashLengthEncoding").get("length::FuzzyHashLengthEncoding", {}).get("MAX_DISTANCE")
+    bm = [v.get("MAX_DISTANCE") for v in body.values()]
+    cm = [v.get("MAX_DISTANCE") for v in ck.values()]
+    vals = bm + cm + [q, l]
+    if not bm or not cm or any(not isinstance(v, int) or v < 0 or v >= (1 << 28) for v in vals):
+        return None
+    return {"hash::body::FuzzyHashBody::compare": (0, max(bm)), "hash::checksum::FuzzyHashChecksum::compare": (0, max(cm)),
+            "hash::qratios::FuzzyHashQRatios::compare": (0, q), "length::FuzzyHashLengthEncoding::compare": (0, l)}
 
 
 def panic_sites(ctx, F):
@@ -439,6 +454,15 @@ def panic_sites(ctx, F):
     # visibility); everything they call at run time is followed (constant initialisers are not: they run in the compiler)
     roots = [b.path for b in F.bodies if b.kind in ("Fn", "AssocFn") and b.d.get("reachable") and not any(re.search(g, b.path) for g in GENERATED)]
     envs = layout.variant_envs(F)
+    # value ranges of the scalar body-distance kernels, from the facts R-02.5 decides (tail shape + per-byte lane table)
+    from . import simd
+    panics.RET_SUMMARY[0] = {k_: (0, v_) for k_, v_ in simd.scalar_kernel_return_max(F).items()}
+    # value ranges of the four part distances: the published MAX_DISTANCE constants, which R-02.6 / R-08.1 / R-08.2 / R-08.6 decide
+    # to be the true maxima of the parts (table maxima on the full domain, count of unequal checksum bytes, 24 per body byte)
+    pm = _part_maxima(F)
+    if pm:
+        panics.RET_SUMMARY[0].update(pm)
+        ctx.notes.append("%s R-17.6: the sum in compare_with_config is discharged from the part maxima %s (decided by C02 R-02.6 / C08 R-08.1-3, R-08.6)" % (F.key, {k_.rsplit("::", 2)[-2]: v_[1] for k_, v_ in pm.items()}))
     sites, reach, G = panics.collect(F, roots)
     panics.RUNTIME_REACH[0] = set(reach)
     sites = [s for s in sites if not any(re.search(g, s.body.path) for g in GENERATED)]
